@@ -2676,6 +2676,7 @@ def shape_of(tree):
         'augs': {q: aug_forms(f) for q, f in functions(tree) if aug_forms(f)},
         'raises': {q: sorted({_txt(r.exc) for r in _fn_walk(f) if isinstance(r, ast.Raise) and r.exc is not None}) for q, f in functions(tree)
                    if any(isinstance(r, ast.Raise) and r.exc is not None for r in _fn_walk(f))},
+        'lentests': {q: len_test_texts(f) for q, f in functions(tree) if len_test_texts(f)},
         'listtargets': {q: sorted({_txt(t) for a in _fn_walk(f) if isinstance(a, ast.Assign) for t in a.targets if isinstance(t, ast.List)}) for q, f in functions(tree)
                         if any(isinstance(t, ast.List) for a in _fn_walk(f) if isinstance(a, ast.Assign) for t in a.targets)},
     }
@@ -3005,6 +3006,17 @@ def respell(tree, ref):
                 elif isinstance(r.exc, ast.Name) and (r.exc.id + '()') in rr:
                     r.exc = ast.copy_location(ast.Call(func=r.exc, args=[], keywords=[]), r.exc)
                     n += 1
+        # tuple(map(lambda v: E, X)) written as tuple(E for v in X): where the reference function calls map() and this one does not
+        rc = ref.get('calls', {}).get(q, {})
+        if rc.get('map') and not any(isinstance(c_, ast.Call) and _txt(c_.func) == 'map' for c_ in _fn_walk(f)):
+            for c_ in list(_fn_walk(f)):
+                if isinstance(c_, ast.Call) and len(c_.args) == 1 and not c_.keywords and isinstance(c_.args[0], ast.GeneratorExp):
+                    ge = c_.args[0]
+                    if len(ge.generators) == 1 and not ge.generators[0].ifs and not ge.generators[0].is_async and isinstance(ge.generators[0].target, ast.Name):
+                        lam = ast.Lambda(args=ast.arguments(posonlyargs=[], args=[ast.arg(arg=ge.generators[0].target.id)], kwonlyargs=[], kw_defaults=[], defaults=[]), body=ge.elt)
+                        c_.args[0] = ast.copy_location(ast.Call(func=ast.Name(id='map', ctx=ast.Load()), args=[lam, ge.generators[0].iter], keywords=[]), ge)
+                        ast.fix_missing_locations(c_)
+                        n += 1
         # list targets
         lt = set(ref.get('listtargets', {}).get(q, []))
         lt_ar = set()                                        # by arity as well: the locals may have been renamed (alpha runs later)
@@ -3022,6 +3034,96 @@ def respell(tree, ref):
                     elif isinstance(t, ast.Tuple) and ('[%s]' % ', '.join(_txt(e) for e in t.elts)) in lt:
                         a.targets[i] = ast.copy_location(ast.List(elts=t.elts, ctx=ast.Store()), t)
                         n += 1
+    return n
+
+
+# ---------------------------------------------------------------------------------------------- emptiness tests
+def _test_positions(fn):
+    """(parent, field, index or None, expr) for every expression of a function that is evaluated for its truth value"""
+    out = []
+
+    def operands(parent, fld, idx, e):
+        out.append((parent, fld, idx, e))
+        if isinstance(e, ast.BoolOp):
+            for i, v in enumerate(e.values):
+                operands(e, 'values', i, v)
+        elif isinstance(e, ast.UnaryOp) and isinstance(e.op, ast.Not):
+            operands(e, 'operand', None, e.operand)
+    for n in _fn_walk(fn):
+        if isinstance(n, (ast.If, ast.While, ast.IfExp, ast.Assert)):
+            operands(n, 'test', None, n.test)
+        elif isinstance(n, ast.comprehension):
+            for i, c in enumerate(n.ifs):
+                operands(n, 'ifs', i, c)
+    return out
+
+
+def _len_test(e):
+    """('nonempty' | 'empty', X) for len(X) > 0, len(X) != 0, len(X) >= 1, len(X) / len(X) == 0, len(X) < 1, not len(X)"""
+    def is_len(x):
+        return isinstance(x, ast.Call) and isinstance(x.func, ast.Name) and x.func.id == 'len' and len(x.args) == 1 and not x.keywords
+    if is_len(e):
+        return 'nonempty', e.args[0]
+    if isinstance(e, ast.Compare) and len(e.ops) == 1 and is_len(e.left) and isinstance(e.comparators[0], ast.Constant) and isinstance(e.comparators[0].value, int):
+        k, op = e.comparators[0].value, type(e.ops[0])
+        if (op, k) in ((ast.Gt, 0), (ast.NotEq, 0), (ast.GtE, 1)):
+            return 'nonempty', e.left.args[0]
+        if (op, k) in ((ast.Eq, 0), (ast.Lt, 1), (ast.LtE, 0)):
+            return 'empty', e.left.args[0]
+    return None
+
+
+def len_test_texts(fn):
+    """{'nonempty:X': 'len(X) > 0', 'empty:X': 'len(X) == 0', ..} - how the function spells its emptiness tests"""
+    out = {}
+    for _p, _f, _i, e in _test_positions(fn):
+        lt = _len_test(e)
+        if lt:
+            out['%s:%s' % (lt[0], _txt(lt[1]))] = _txt(e)
+    return out
+
+
+def respell_len_tests(tree, ref):
+    """`if X:` / `if not X:` where the reference function asks `len(X) > 0` / `len(X) == 0` (in whatever spelling) and never asks for
+    the truth of X itself: the test is written the reference's way.  (For the sized containers the reference measures, the two
+    agree; a value that has no len() is a different matter and not what a linter's rewrite produces.)"""
+    rt = ref.get('lentests')
+    if rt is None:
+        return 0
+    n = 0
+    for q, f in functions(tree):
+        want = rt.get(q)
+        if not want:
+            continue
+        for parent, fld, idx, e in _test_positions(f):
+            if isinstance(e, (ast.BoolOp, ast.Compare, ast.Call, ast.Constant)):
+                continue
+            if isinstance(e, ast.UnaryOp) and isinstance(e.op, ast.Not) and isinstance(e.operand, (ast.Name, ast.Attribute, ast.Subscript)):
+                key = 'empty:' + _txt(e.operand)
+                alt = 'nonempty:' + _txt(e.operand)
+                if key in want:
+                    new = ast.parse(want[key], mode='eval').body
+                elif alt in want:
+                    new = ast.UnaryOp(op=ast.Not(), operand=ast.parse(want[alt], mode='eval').body)
+                else:
+                    continue
+            elif isinstance(e, (ast.Name, ast.Attribute, ast.Subscript)):
+                key = 'nonempty:' + _txt(e)
+                if key not in want:
+                    continue
+                # `not X` is handled as a whole above: skip its operand
+                if isinstance(parent, ast.UnaryOp) and isinstance(parent.op, ast.Not):
+                    continue
+                new = ast.parse(want[key], mode='eval').body
+            else:
+                continue
+            new = ast.copy_location(new, e)
+            ast.fix_missing_locations(new)
+            if idx is None:
+                setattr(parent, fld, new)
+            else:
+                getattr(parent, fld)[idx] = new
+            n += 1
     return n
 
 # ---------------------------------------------------------------------------------------------- helpers
@@ -3126,8 +3228,36 @@ def _const_node(value, like):
     return node
 
 
+def rename_globals_back(tree, ref):
+    """A private module-level name whose spelling changed in case / underscores only (`_nr_of_retries` -> `_NR_OF_RETRIES`, all users
+    and `global` statements updated): the reference's name again."""
+    known = [c for c in ref.get('consts', []) if '.' not in c]
+    have = [t for st in tree.body for t in _targets(st)]
+    unknown = [h for h in have if h not in known and h.startswith('_')]
+    missing = [k for k in known if k not in have and k.startswith('_')]
+    if not unknown or not missing:
+        return 0
+    bound = {a.arg for a in ast.walk(tree) if isinstance(a, ast.arg)}
+
+    def key(nm):
+        return nm.replace('_', '').lower()
+    mapping = {}
+    for u in unknown:
+        cands = [m_ for m_ in missing if key(m_) == key(u)]
+        if len(cands) == 1 and [x for x in unknown if key(x) == key(u)] == [u] and u not in bound and cands[0] not in bound:
+            mapping[u] = cands[0]
+    if not mapping:
+        return 0
+    for n in ast.walk(tree):
+        if isinstance(n, ast.Name) and n.id in mapping:
+            n.id = mapping[n.id]
+        elif isinstance(n, (ast.Global, ast.Nonlocal)):
+            n.names = [mapping.get(x, x) for x in n.names]
+    return len(mapping)
+
+
 def _constants(tree, ref):
-    k = inline_constants(tree, ref)
+    k = rename_globals_back(tree, ref) + inline_constants(tree, ref)
     if k:
         _FoldInlined().visit(tree)
     return k
@@ -4988,7 +5118,7 @@ def normalise(tree, path, ref_locals, model=None):
     out = {}
     for name, fn in (('moved', lambda: pull_back_moved(tree, ref, path, model) + drop_moved_away(tree, ref, path, model)), ('match', lambda: lower_match(tree, ref)), ('eafp', lambda: undo_eafp_probes(tree, ref)), ('getnone', lambda: undo_get_none_tests(tree, ref, ref_locals)), ('iadd', lambda: extend_as_iadd(tree, ref)), ('enums', lambda: dissolve_enums(tree, ref)), ('namedtuples', lambda: dissolve_namedtuples(tree, ref, path, model)), ('regroup', lambda: regroup_indexed_reads(tree, ref, ref_locals)), ('dataclasses', lambda: undo_dataclasses(tree, ref)), ('dispatch', lambda: undo_dispatch_tables(tree, ref)),
                      ('annotations', lambda: strip_annotations(tree, ref)), ('imports', lambda: normalise_imports(tree, ref)), ('attributes', lambda: rename_attributes(tree, ref)),
-                     ('methods', lambda: rename_methods(tree, ref)), ('formats', lambda: restyle_formats(tree, ref)), ('spelling', lambda: respell(tree, ref)), ('closures', lambda: restore_closures(tree, ref) + restore_closures_from_objects(tree, ref) + unname_lambdas(tree, ref)), ('self', lambda: restore_self(tree, ref)), ('tuples', lambda: split_tuple_bindings(tree, ref)), ('suppress', lambda: expand_suppress(tree, ref)), ('constants', lambda: _constants(tree, ref)),
+                     ('methods', lambda: rename_methods(tree, ref)), ('formats', lambda: restyle_formats(tree, ref)), ('spelling', lambda: respell(tree, ref) + respell_len_tests(tree, ref)), ('closures', lambda: restore_closures(tree, ref) + restore_closures_from_objects(tree, ref) + unname_lambdas(tree, ref)), ('self', lambda: restore_self(tree, ref)), ('tuples', lambda: split_tuple_bindings(tree, ref)), ('suppress', lambda: expand_suppress(tree, ref)), ('constants', lambda: _constants(tree, ref)),
                      ('boolindex', lambda: undo_bool_indexing(tree, ref)), ('observability', lambda: drop_observability(tree, ref)), ('params', lambda: default_new_params(tree, ref) + default_new_params(tree, ref)), ('kwargs', lambda: positionalise_keywords(tree, ref, model)), ('initliterals', lambda: inline_init_literals(tree, ref)),
                      ('structs', lambda: inline_struct_objects(tree, ref)),
                      ('anytests', lambda: lower_any_tests(tree, ref)), ('itertools', lambda: undo_iteration_tools(tree, ref) + undo_iteration_tools(tree, ref)), ('loops', lambda: reshape_loops(tree, ref, ref_locals)), ('helpers', lambda: inline_helpers(tree, ref)), ('namedtuples2', lambda: dissolve_namedtuples(tree, ref, path, model)), ('records', lambda: scalarise_records(tree, ref)), ('tuplevars', lambda: scalarise_tuple_locals(tree, ref, ref_locals)), ('elsedefaults', lambda: hoist_else_defaults(tree, ref)), ('ifexps0', lambda: expand_ifexps(tree, ref)), ('flagtails', lambda: sink_flag_tails(tree, ref, ref_locals)), ('decided', lambda: fold_decided_branches(tree, ref)), ('trivia', lambda: drop_trivia(tree, ref)), ('ifexps', lambda: expand_ifexps(tree, ref)), ('boolreturns', lambda: expand_bool_returns(tree, ref)),
